@@ -19,6 +19,9 @@ package main
 //  D. configuration probes (denylist, global names, shuffled option order), law-based; D2: module globals
 //     whose module names differ from / collide with the global names, against the model's import cache.
 //  E. every callable x (map | mixed set | float set | list of objects without String()) at every argument position, evaluated repeatedly.
+//  G. (c05walk.go) containers with SEVERAL failing elements: generated value trees through json.marshal (6 routes) against the Lean
+//     model JV.marshal, text for text, repeated in fresh VMs and processes; every callable of E x {map of unmarshalable values,
+//     heterogeneous set}; site probes for modules/exec (parameter map, env map) and modules/http (header names that differ in case).
 //  F. (c05render.go) object graphs of every object type rendered through every printing route against the Lean render model.
 
 import (
@@ -2538,7 +2541,16 @@ func c05_runC05(e *Env) {
 		"cells, dynamic attributes, nested in lists, maps, sets) rendered by one script through print, printf, fmt.println, sprintf %v/%s, fmt.sprintf, " +
 		"string(), interpolation, inside a list and a map, errorf, errors.new, error() and directly through Inspect()/PrintableValue, every text compared " +
 		"with the model's render (addresses chosen by the harness) and evaluated repeatedly in fresh VMs and fresh processes; no text may contain a Go " +
-		"pointer; module-defined and OS-backed objects and error messages about such objects by repetition and the pointer rule only. A case is one program / one probe input; " +
+		"pointer; G: value trees (maps of 0-12 entries filled entry by entry in a random insertion order, sets incl. +-Inf members, lists, nested to depth 3; " +
+		"values are scalars, 13 kinds of unmarshalable values — function, module, builtin, channel, error value, five iterators, +Inf, -Inf, NaN — or containers; " +
+		"most trees have >= 2 failing elements in one map) marshalled through json.marshal, json.marshal with indent, under try, nested in a list, nested in a map " +
+		"next to a failing sibling, and by the host's json.Marshal on the returned object, every outcome (JSON text or error text) compared byte for byte with the " +
+		"model JV.marshal (asked under two random choices of visiting orders) and repeated 8-192 times in fresh VMs and in fresh processes; encode(x, \"json\") and the " +
+		"data of an http request by repetition; 5 directed trees (failing values in slots 0 and 4 of an 8-entry map, all 8 values failing, a function and a module, " +
+		"failures in two inner maps, a set with +Inf and -Inf); every callable of E plus 20 module functions x {map of 8 unmarshalable/unsummable values, heterogeneous set of 10} " +
+		"at every argument position; exec() with 1-5 parameter keys / env values of which 1-5 are invalid against firstFailure, the child's environment order, http.request " +
+		"headers with names that differ in case against headerValues; non-trivial when >= 2 elements fail; " +
+		"module-defined and OS-backed objects and error messages about such objects by repetition and the pointer rule only. A case is one program / one probe input; " +
 		"distinct by its text; non-trivial when it contains a map/set literal, a default argument or a map/set iteration (all A and B programs do), " +
 		"or, for probes, when the map has >= 2 entries. 7 of 8 programs stay inside the guard NoBigMap."
 	nFrag, nGen, reps, kids, nSite := 500, 160, 8, 4, 150
@@ -2547,6 +2559,9 @@ func c05_runC05(e *Env) {
 	}
 	// the targeted probes run first: their cases are the smallest, and the first violation recorded
 	// becomes the replay
+	// stream G (c05walk.go): containers with several failing elements
+	c05WalkMarshal(e, min(nSite*2/3, 600), min(reps, 24), kids)
+	c05WalkSites(e, min(nSite/4, 300), min(reps*2, 32))
 	c05Render(e, nSite*2, reps, kids)
 	c05RenderOpaque(e, reps)
 	c05SiteSorted(e, nSite)
@@ -2560,6 +2575,7 @@ func c05_runC05(e *Env) {
 	c05SiteMockFS(e, nSite/5, reps*4)
 	c05Config(e, nSite/10, reps)
 	c05BuiltinArgs(e, reps)
+	c05WalkCallables(e, min(reps, 32)*3/4)
 	c05Fragments(e, nFrag, reps)
 	c05General(e, nGen, reps, kids)
 }
